@@ -144,7 +144,7 @@ let () =
              (* impl_after: (x) = the save reported success and x is the document now;
                 () = it reported an error and the file is byte for byte what it was *)
              let ok = M.c19_lib_ok f c dref (opt_ json_ impl_after) il in
-             List [of_opt of_json saved; of_lres loaded; of_bool ok])
+             List [of_opt of_json saved; of_lres loaded; of_bool ok; of_bool (M.c19_validate_ok f c)])
     | _ -> failwith "c19-lib: bad case");
   (* generate: (fs flags obs-of-impl) -> (result spec-invalid spec-eff oracle (kf ...)) *)
   Registry.register "generate" (fun s ->
@@ -194,10 +194,11 @@ let () =
           | Some d -> M.c19_flat_roundtrip c (M.c19_from_flat d)
           | None -> false in
         let ok = ok && (match impl_loaded, loaded with
+          | List [Atom "some"; _], None -> false   (* settings that do not validate must be refused on reading *)
           | List [Atom "some"; c'], _ -> M.c19_flat_roundtrip c (Some (config_ c'))
-          | _, None -> true          (* settings that do not validate are refused on reading *)
+          | _, None -> true
           | _, Some _ -> false) in
-        List [of_json flat; of_opt of_config loaded; of_bool ok]
+        List [of_json flat; of_opt of_config loaded; of_bool ok; of_bool (M.c19_validate_ok f c)]
     | _ -> failwith "c19-flat: bad case");
   (* reading an arbitrary standalone document: (doc project-exists-list) -> loaded *)
   Registry.register "flatload" (fun s ->
@@ -231,3 +232,19 @@ let () =
         let kfs = if M.c19_kf_build_fallback f then [Atom "C19-9"] else [] in
         List [of_result f r; of_eff (M.c19_spec_eff_build f); of_bool (M.c19_build_invalid f); of_bool ok; List kfs]
     | _ -> failwith "c19-build: bad case")
+
+let () =
+  (* init -o <standalone file>: (fs iflags force obs after-doc) -> (result doc-after oracle) *)
+  Registry.register "initfile" (fun s ->
+    match list s with
+    | [f; il; force; o; after] ->
+        let f = fs_ f in
+        let il = iflags_ il in
+        let force = bool_ force in
+        let r = M.c19_init_file f il force in
+        let t = match il.M.i_output with Some t -> t | None -> explode "tauri.conf.json" in
+        let doc_after = match M.c19_fs_get (result_fs r) t with
+          | Some (M.NDoc (Some d)) -> List [of_json d] | _ -> List [] in
+        let ok = M.c19_init_file_ok f il force (obs_ o) (opt_ json_ after) in
+        List [of_result f r; doc_after; of_bool ok]
+    | _ -> failwith "c19-initfile: bad case")
